@@ -116,7 +116,7 @@ def big_docs(rng, tier):
     plan = [(300, s) for s in ("arr-then-obj", "obj-then-arr", "mixed")] + [(600, "arr-then-obj"), (600, "mixed"), (1030, "obj-then-arr"),
             (12000, "mixed")]
     if tier == "thorough":
-        plan += [(513, "mixed"), (2049, "arr-then-obj"), (20000, "obj-then-arr"), (70000, "mixed")]
+        plan += [(513, "mixed"), (2049, "arr-then-obj"), (20000, "obj-then-arr")]      # (the Lean model's level stack is a list: quadratic in the depth)
     for D, shape in plan:
         for nest in (D - 2, D - 1, D, D + 1):
             t, ans = big_doc(rng, nest, shape)
